@@ -151,6 +151,10 @@ pub fn check(args: &[String]) -> i32 {
     }
 
     // --- the batch
+    // process-history oracle: the outcomes of runs 1..K computed inside a
+    // long-lived worker (after earlier runs) are later compared with the same
+    // runs executed as the first thing a fresh process does
+    let history_k: u64 = arg(args, "--history-runs").and_then(|s| s.parse().ok()).unwrap_or(if tier == "thorough" { 400 } else { 100 });
     let per_bin_workers = (workers / bins.len()).max(1);
     let mut children = vec![];
     for (b, bin) in bins.iter().enumerate() {
@@ -167,6 +171,7 @@ pub fn check(args: &[String]) -> i32 {
                     "worker", "--prop", &prop, "--tier", &tier, "--seed", &seed.to_string(),
                     "--start", &start.to_string(), "--count", &count.to_string(), "--out", &out,
                     "--deadline-ms", &deadline_ms.to_string(),
+                    "--record-outcomes-below", &history_k.to_string(),
                 ])
                 .stdout(Stdio::inherit())
                 .stderr(Stdio::inherit())
@@ -264,13 +269,17 @@ pub fn check(args: &[String]) -> i32 {
         while (next < total || !running.is_empty()) && !harness_error {
             while next < total && running.len() < workers {
                 let bin = &bins[(next % bins.len() as u64) as usize];
-                let start = base + (next / bins.len() as u64) * 2;
+                let nth = next / bins.len() as u64;
+                // the first K-1 fresh processes of each profile re-run the
+                // indices 1..K of the main range, one each; the others run
+                // two new indices
+                let (start, count) = if nth + 1 < history_k { (nth + 1, 1u64) } else { (base + nth * 2, 2u64) };
                 let out = format!("{tmp}/f{next}.json");
                 match Command::new(bin)
                     .args([
                         "worker", "--prop", &prop, "--tier", &tier, "--seed", &seed.to_string(),
-                        "--start", &start.to_string(), "--count", "2", "--out", &out,
-                        "--deadline-ms", "60000",
+                        "--start", &start.to_string(), "--count", &count.to_string(), "--out", &out,
+                        "--deadline-ms", "60000", "--record-outcomes-below", &history_k.to_string(),
                     ])
                     .stdout(Stdio::inherit())
                     .stderr(Stdio::inherit())
@@ -384,6 +393,53 @@ pub fn check(args: &[String]) -> i32 {
             violations.extend(a.iter().cloned());
         }
     }
+    // process-history oracle: per profile, index -> set of outcome hashes seen
+    let mut by_profile: BTreeMap<String, BTreeMap<String, BTreeSet<u64>>> = BTreeMap::new();
+    for (_, d) in &docs {
+        let prof = d["profile"].as_str().unwrap_or("?").to_string();
+        if let Some(o) = d["outcome_fps"].as_object() {
+            for (k, v) in o {
+                by_profile.entry(prof.clone()).or_default().entry(k.clone()).or_default().insert(v.as_u64().unwrap_or(0));
+            }
+        }
+    }
+    let mut history_compared = 0u64;
+    let mut history_violations = vec![];
+    if !reset_unavailable {
+        for (prof, m) in &by_profile {
+            for (idx, set) in m {
+                if set.len() >= 1 {
+                    history_compared += 1;
+                }
+                if set.len() > 1 {
+                    history_violations.push((prof.clone(), idx.clone()));
+                }
+            }
+        }
+    }
+    let known_ph = KnownFindings::load().matches(&prop, "depends-on-process-history");
+    for (prof, idx) in history_violations.iter().take(3) {
+        if known_ph.is_some() {
+            continue;
+        }
+        let path = format!("{}/replays/{}-{}-{}-process-history-{}.json", verif_dir(), prop, prof, seed, idx);
+        let _ = std::fs::create_dir_all(format!("{}/replays", verif_dir()));
+        let doc = json!({
+            "property": prop, "profile": prof, "kind": "process-history", "verif_seed": seed, "tier": tier,
+            "run_index": idx.parse::<u64>().unwrap_or(0),
+            "violation_class": "depends-on-process-history",
+            "violation_detail": format!("the outcomes of run {idx} differ between a fresh process and a process that executed runs 0..{idx} before it: state outside the provider survives from call to call"),
+        });
+        let _ = std::fs::write(&path, serde_json::to_string_pretty(&doc).unwrap());
+        violations.push(json!({"class": "depends-on-process-history", "detail": doc["violation_detail"], "replay": path, "index": idx}));
+    }
+    if let Some(k) = &known_ph {
+        if !history_violations.is_empty() {
+            *known_hits.entry(k.clone()).or_insert(0) += history_violations.len() as u64;
+        }
+    } else {
+        unlisted += history_violations.len() as u64;
+    }
     let _ = std::fs::remove_dir_all(&tmp);
     let wall = t0.elapsed().as_secs_f64();
 
@@ -442,6 +498,12 @@ pub fn check(args: &[String]) -> i32 {
         ],
     });
     coverage["operations_per_kind"] = to_json(&op_kinds);
+    coverage["process_history_oracle"] = json!({
+        "runs_compared": history_compared,
+        "differing": history_violations.len(),
+        "what": "the outcomes of runs 1..K executed inside a long-lived worker process (after earlier runs) equal the outcomes of the same runs executed as the first thing a fresh process does",
+        "skipped": reset_unavailable,
+    });
     coverage["runs_in_fresh_processes"] = json!({
         "processes": fresh_procs * bins.len() as u64,
         "runs": fresh_runs,
